@@ -396,6 +396,23 @@ def run(ctx, scratch):
                               case=dict(n=n, edges=[e for e in E if e[0] < e[1]], dtype='int'), expected=exp, observed=got,
                               family=fam, kind='oracle')
     ctx.extra['core_medium_graphs'] = core_medium
+    # ---- one large star with a triangle at the hub: the number of connected triples d(d-1)/2 of the hub exceeds 2^31 (finding D37:
+    #      int32 degrees overflowed and the coefficient came out negative)
+    big = 50001
+    E = gen.sym([(0, v) for v in range(1, big)] + [(1, 2)])
+    with Impl(scratch) as impl:
+        got = impl.call('c11', 'coefficient', dict(m=mspec(big, E, 'int')), timeout=300)
+        ctx.traces += 1
+        ctx.count('coefficient_large_star', ('star', big), True)
+        triples = (big - 1) * (big - 2) // 2 + 2 * 1        # hub + the two leaves of degree 2
+        exp = 3 * 1 / triples
+        val = got.get('ok')
+        val = val.get('ok') if isinstance(val, dict) else val
+        if not isinstance(val, (int, float)) or abs(val - exp) > 1e-9 * exp:
+            ctx.violation('get_clustering_coefficient', 'coefficient of a %d-node star with one triangle is not 3T / #connected triples '
+                          '(the hub alone has more than 2^31 connected triples)' % big,
+                          case=dict(n=big, edges='star centred at 0 plus the edge (1, 2)', dtype='int'), expected=exp, observed=got,
+                          family='large_star', kind='oracle')
 
     ctx.extra['c11'] = dict(graphs=len(cases), directed_graphs=len(tri_dir), clique_runs=clique_runs,
                             coefficient_undefined_skipped=coef_skipped, parallel_runs=par_runs,
